@@ -130,6 +130,16 @@ def filter_from_fft(n_lambda, lambda_0, delta_lambda, tr_max, fft_parameters):
         Empirical1D, points=wavelength, lookup_table=transmittance)
 
 
+def _balanced_sum(models):
+    """Sum models pairwise so that the compound model tree has logarithmic
+    depth; a left-nested sum of hundreds of terms cannot be evaluated
+    (RecursionError)."""
+    while len(models) > 1:
+        models = [models[i] + models[i + 1] if i + 1 < len(models)
+                  else models[i] for i in range(0, len(models), 2)]
+    return models[0]
+
+
 def analytical_model_from_fft(n_lambda, lambda_0, delta_lambda, tr_max,
                               fft_parameters):
     """Similar to :func:`filter_from_fft` except that this returns
@@ -151,12 +161,12 @@ def analytical_model_from_fft(n_lambda, lambda_0, delta_lambda, tr_max,
     n_wave = len(wavelength)
     n_fft_pars = len(fft_parameters)
 
-    m = (np.sum([Sine1D(amplitude=fft_parameters[i].real / n_wave,
-                        frequency=i / n_wave, phase=0.25)
-                 for i in range(n_fft_pars)]) -
-         np.sum([Sine1D(amplitude=fft_parameters[i].imag / n_wave,
-                        frequency=i / n_wave)
-                 for i in range(n_fft_pars)]))
+    m = (_balanced_sum([Sine1D(amplitude=fft_parameters[i].real / n_wave,
+                               frequency=i / n_wave, phase=0.25)
+                        for i in range(n_fft_pars)]) -
+         _balanced_sum([Sine1D(amplitude=fft_parameters[i].imag / n_wave,
+                               frequency=i / n_wave)
+                        for i in range(n_fft_pars)]))
 
     @custom_model
     def fft_model(x):
